@@ -125,6 +125,8 @@ Lit(text) == [j |-> "str", kind |-> "lit", a |-> text, f |-> "canon"]
 X(jt, atom) == [j |-> jt, kind |-> "x", a |-> atom, f |-> "canon"]     \* wrong-type replacement leaves
 JNull == [j |-> "null"]
 JRaw == [j |-> "raw"]
+JRawE == [j |-> "rawempty"]      \* the payload of an Any whose inner message is empty: {}
+EmptyAny == {"protoE", "jsonE"}   \* ... carried as (empty) proto bytes only, or as the JSON text {}
 JObj(m) == [j |-> "obj", m |-> m]
 JArr(s) == [j |-> "arr", s |-> s]
 
@@ -193,8 +195,14 @@ FocusVals(kind, anyc) ==
                              [l |-> "pxn1", v |-> OneofV(<<KV("px", ObjV(<<KV("n", Atom("one"))>>))>>), wf |-> FALSE],
                              [l |-> "py", v |-> OneofV(<<KV("py", Atom("ascii"))>>), wf |-> FALSE],
                              [l |-> "py0", v |-> OneofV(<<KV("py", Atom("zero"))>>), wf |-> FALSE] }
-      [] kind = "anyj5" -> { [l |-> (IF anyc THEN "both" ELSE "json"), v |-> AnyV(IF anyc THEN "both" ELSE "json"), wf |-> FALSE] }
-      [] kind = "anypb" -> { [l |-> "proto", v |-> AnyV("proto"), wf |-> FALSE] }
+      \* a j5 Any may carry its payload as JSON text, as proto bytes, or both; the encoder transcodes proto bytes. An inner
+      \* message without set fields has NO proto bytes at all (and a decoded one has none either): "protoE" / "jsonE"
+      [] kind = "anyj5" -> { [l |-> (IF anyc THEN "both" ELSE "json"), v |-> AnyV(IF anyc THEN "both" ELSE "json"), wf |-> FALSE],
+                             [l |-> "emptyinner-json", v |-> AnyV("jsonE"), wf |-> FALSE],
+                             [l |-> "emptyinner-proto", v |-> AnyV("protoE"), wf |-> FALSE] }
+                           \cup (IF anyc THEN { [l |-> "protoonly", v |-> AnyV("proto"), wf |-> FALSE] } ELSE {})
+      [] kind = "anypb" -> { [l |-> "proto", v |-> AnyV("proto"), wf |-> FALSE],
+                             [l |-> "emptyinner-proto", v |-> AnyV("protoE"), wf |-> FALSE] }
 
 WfVals(kind) == { [l |-> a, v |-> Atom(a), wf |-> TRUE] : a \in WfOnlyAtoms(kind) }
 
@@ -232,6 +240,9 @@ RECURSIVE NormNode(_, _), NormMembers(_, _, _, _)
 NormNode(sch, v) ==
     CASE sch.t = "obj" -> ObjV(NormMembers(sch.props, v.m, "obj", 1))
       [] sch.t = "oneof" -> OneofV(NormMembers(sch.props, v.m, "oneof", 1))
+      \* a j5 Any given as proto bytes comes back with its JSON text (and, WithProtoToAny - the only codec such values
+      \* are generated for - the bytes as well); an empty inner message has no bytes to come back with
+      [] sch.t = "any" /\ sch.fl = "j5" -> IF v.a = "protoE" THEN AnyV("jsonE") ELSE IF v.a = "proto" THEN AnyV("both") ELSE v
       [] OTHER -> v
 NormMembers(props, m, parentT, i) ==
     IF i > Len(props) THEN <<>>
@@ -287,7 +298,7 @@ EncNode(sch, v, S) ==
                                THEN <<KV(op.name, IF op.sch.t = "leaf" THEN Leaf(op.sch.kind, "ascii", "canon") ELSE JObj(<<>>))>> ELSE <<>>)
                               \o (IF S.uk = sch.name THEN <<KV("zzz", Lit("x"))>> ELSE <<>>)
                  IN JObj(Ord(S, <<KV("!type", tyv), KV(arm.k, EncCard(pr, arm.v, S))>> \o extra))
-      [] sch.t = "any" -> JObj(Ord(S, <<KV("!type", Lit(AnyTypeName)), KV("value", JRaw)>>))
+      [] sch.t = "any" -> JObj(Ord(S, <<KV("!type", Lit(AnyTypeName)), KV("value", IF v.a \in EmptyAny THEN JRawE ELSE JRaw)>>))
 
 EncCard(p, v, S) ==
     LET isFocus == p.name = FocusName
@@ -357,7 +368,8 @@ DecNode(sch, j, anyc) ==
                      vals == Lookup(j.m, "value")
                  IN IF tys = <<>> \/ vals = <<>> \/ Len(j.m) # 2 THEN Reject
                     ELSE IF tys[1].j # "str" THEN Reject
-                    ELSE IF sch.fl = "pb" THEN (IF anyc THEN AnyV("proto") ELSE Reject)
+                    ELSE IF sch.fl = "pb" THEN (IF anyc THEN AnyV(IF vals[1].j = "rawempty" THEN "protoE" ELSE "proto") ELSE Reject)
+                    ELSE IF vals[1].j = "rawempty" THEN AnyV("jsonE")
                     ELSE AnyV(IF anyc THEN "both" ELSE "json")
 
 DecCard(p, j, anyc) ==
@@ -590,7 +602,7 @@ WellFormed(j) ==
     CASE j.j = "obj" -> (\A i, k \in 1..Len(j.m) : i # k => j.m[i].k # j.m[k].k) /\ (\A i \in 1..Len(j.m) : WellFormed(j.m[i].v))
       [] j.j = "arr" -> \A i \in 1..Len(j.s) : WellFormed(j.s[i])
       [] j.j \in {"str", "num", "bool"} -> j.kind = "lit" \/ (j.f = CanonForm(j.kind) /\ j.j = JT(j.kind))
-      [] j.j = "raw" -> TRUE
+      [] j.j \in {"raw", "rawempty"} -> TRUE
       [] OTHER -> FALSE        \* the encoder never writes null
 
 \* Enc output is a well-formed tree in canonical representation; flatten / exposed oneofs never make two members share a key
